@@ -181,7 +181,7 @@ class MediaInfo(HTMLHandlerBase):
                 status = 404
         if result["error"] is None:
             result.update(mf.toJSON())
-            models.db.session.delete(mf)
+            mf.stream.delete_media_file(mf)
             models.db.session.commit()
             result["deleted"] = mfid
         csrf_key = self.generate_csrf_cookie()
@@ -321,7 +321,7 @@ class DeleteMedia(DeleteModelBase):
             "title": current_media_file.name,
             "stream": current_stream.title,
         }
-        models.db.session.delete(current_media_file)
+        current_media_file.stream.delete_media_file(current_media_file)
         models.db.session.commit()
         return result
 
